@@ -131,49 +131,52 @@ def parseFnEnd (F : Nat) (c : Core) (fn : Function) : M Function := do
       let _ ← (raiseParseError none "expected 'delete" : M Unit)
   pure fn
 
-/-- `_parse_method_end(method)` -/
-def parseMethodEnd (F : Nat) (c : Core) (method : Function) : M Function :=
-  loopN F method (fun method => do
+/-- one iteration of the `while True:` of `_parse_method_end` -/
+def methodEndBody (F : Nat) (c : Core) (method : Function) : M (Function ⊕ Function) := do
+  let tok ← token
+  let v := tok.value
+  if v = ":" || v = "{" then do
+    if v = ":" then discardCtorInitializer F else discardContents F "{" "}"
+    pure (.inr { method with hasBody := true })
+  else if v = "=" then do
     let tok ← token
     let v := tok.value
-    if v = ":" || v = "{" then do
-      if v = ":" then discardCtorInitializer F else discardContents F "{" "}"
+    if v = "0" then pure (.inr { method with pureVirtual := true })
+    else if v = "delete" then pure (.inr { method with deleted := true })
+    else if v = "default" then pure (.inr { method with default := true })
+    else raiseParseError (some tok) "0/delete/default"
+  else if v = "const" then pure (.inl { method with const := true })
+  else if v = "volatile" then pure (.inl { method with volatile := true })
+  else if v = "override" then pure (.inl { method with override := true })
+  else if v = "final" then pure (.inl { method with final := true })
+  else if v = "&" || v = "&&" then pure (.inl { method with refQualifier := some v })
+  else if v = "->" then do
+    let rt ← parseTrailingReturnType c method.returnType
+    let method := { method with hasTrailingReturn := true, returnType := some rt }
+    if (← tokenIf ["{"]).isSome then do
+      discardContents F "{" "}"
       pure (.inr { method with hasBody := true })
-    else if v = "=" then do
-      let tok ← token
-      let v := tok.value
-      if v = "0" then pure (.inr { method with pureVirtual := true })
-      else if v = "delete" then pure (.inr { method with deleted := true })
-      else if v = "default" then pure (.inr { method with default := true })
-      else raiseParseError (some tok) "0/delete/default"
-    else if v = "const" then pure (.inl { method with const := true })
-    else if v = "volatile" then pure (.inl { method with volatile := true })
-    else if v = "override" then pure (.inl { method with override := true })
-    else if v = "final" then pure (.inl { method with final := true })
-    else if v = "&" || v = "&&" then pure (.inl { method with refQualifier := some v })
-    else if v = "->" then do
-      let rt ← parseTrailingReturnType c method.returnType
-      let method := { method with hasTrailingReturn := true, returnType := some rt }
-      if (← tokenIf ["{"]).isSome then do
-        discardContents F "{" "}"
-        pure (.inr { method with hasBody := true })
-      else pure (.inr method)
-    else if v = "throw" then do
-      let t ← nextTokenMustBe ["("]
-      let toks ← consumeBalancedTokens F [t]
-      pure (.inl { method with throw := some (createValue (sliceIf Gen.methodThrowSliced toks)) })
-    else if v = "noexcept" then do
-      match (← tokenIf ["("]) with
-      | some otok => do
-        let toks ← consumeBalancedTokens F [otok]
-        pure (.inl { method with noexcept := some (createValue (sliceIf Gen.methodNoexceptSliced toks)) })
-      | none => pure (.inl { method with noexcept := some (createValue []) })
-    else if v = "requires" then do
-      let r ← parseRequires F
-      pure (.inl { method with rawRequires := some r })
-    else do
-      returnToken tok
-      pure (.inr method))
+    else pure (.inr method)
+  else if v = "throw" then do
+    let t ← nextTokenMustBe ["("]
+    let toks ← consumeBalancedTokens F [t]
+    pure (.inl { method with throw := some (createValue (sliceIf Gen.methodThrowSliced toks)) })
+  else if v = "noexcept" then do
+    match (← tokenIf ["("]) with
+    | some otok => do
+      let toks ← consumeBalancedTokens F [otok]
+      pure (.inl { method with noexcept := some (createValue (sliceIf Gen.methodNoexceptSliced toks)) })
+    | none => pure (.inl { method with noexcept := some (createValue []) })
+  else if v = "requires" then do
+    let r ← parseRequires F
+    pure (.inl { method with rawRequires := some r })
+  else do
+    returnToken tok
+    pure (.inr method)
+
+/-- `_parse_method_end(method)` -/
+def parseMethodEnd (F : Nat) (c : Core) (method : Function) : M Function :=
+  loopN F method (methodEndBody F c)
 
 /-! ### functions -/
 
